@@ -3,7 +3,8 @@ Tier-A extractor for the per-element arithmetic / decision logic of the ISIMIP s
 that are not straight-line kernels: `_step5_transfer_trend`, `_step3_remove_trend`, `step7`, the step-6 bound masks,
 `_step4_randomize_values_between_*`, `_step2_get_mask_for_values_to_impute`, and (part 2) `_step1_scale_…` / `_step8_rescale_…`,
 both branches of `_step1_calculate_debiased_annual_cycle_of_upper_bounds`, `_step1_get_annual_cycle_of_upper_bounds`, and the
-wiring of `step1` / `step8`.  Not covered: `_step2_impute_values`.
+wiring of `step1` / `step8`.  `_step2_impute_values` has its own symbolic reading at the end of this file (`generate_step2`,
+group `IsimipStep2`).
 
 Two readings, both strict (anything outside the stated shapes raises `Untranslatable` — never guessed):
 
@@ -995,6 +996,209 @@ def generate(repo):
         except Untranslatable as ex:
             errors.append(f"untranslatable:{sp['func']}: " + " ".join(str(ex).split()))
     out.append("end Gen.IsimipSteps\n")
+    return "\n".join(out), errors
+
+
+
+# ====================================================================================== step 2: `_step2_impute_values`
+# A third, dedicated reading (group `IsimipStep2`, `Gen/IsimipStep2.lean`): the function is evaluated *symbolically* —
+# every local name is bound to the expression tree it was computed from (DSL `Model.IsimipStep2.E`), so the names of
+# locals play no role — and emitted as DATA (`Step2Spec`): which values count as valid, the exception when none is valid,
+# the single-valid-value branch, and the mask / value of the final masked assignment.  Strict: any other statement or
+# expression raises `Untranslatable`.
+class Step2Reader:
+    MASK_HELPER = "self._step2_get_mask_for_values_to_impute"
+
+    def __init__(self, node):
+        self.node = node
+        params = [a.arg for a in node.args.args]
+        if params != ["self", "x"] or node.args.vararg or node.args.kwarg or node.args.kwonlyargs or node.args.defaults:
+            raise Untranslatable(f"step2: parameters {params}")
+        self.env = {"x": (".x", "farr")}  # name -> (term, kind); kinds: farr (the argument), arr, mask, idx, nat, num, interp
+        self.valid = None
+        self.empty_raises = None
+        self.single = None
+        self.fill = None
+
+    # ---- expressions
+    def ev(self, e):
+        if isinstance(e, ast.Name):
+            if e.id not in self.env:
+                raise Untranslatable(f"step2: unknown name `{e.id}`")
+            return self.env[e.id]
+        if isinstance(e, ast.Subscript):
+            if isinstance(e.slice, ast.Constant) and e.slice.value == 0 and type(e.slice.value) is int:
+                v = e.value
+                if isinstance(v, ast.Call) and ast.unparse(v.func) == "np.where" and len(v.args) == 1 and not v.keywords:
+                    m, k = self.ev(v.args[0])
+                    if k != "mask":
+                        raise Untranslatable("step2: np.where of a non-mask")
+                    return f"(.whereIdx {m})", "idx"
+                a, k = self.ev(v)
+                if k not in ("arr",):
+                    raise Untranslatable(f"step2: `{ast.unparse(e)}`: [0] of {k}")
+                return f"(.first {a})", "num"
+            a, ka = self.ev(e.value)
+            i, ki = self.ev(e.slice)
+            if ka in ("arr", "farr") and ki == "mask":
+                return f"(.sel {a} {i})", "arr"
+            if ka == "arr" and ki == "idx":
+                return f"(.take {a} {i})", "arr"
+            raise Untranslatable(f"step2: `{ast.unparse(e)[:60]}`: {ka} indexed by {ki}")
+        if isinstance(e, ast.Call):
+            f = ast.unparse(e.func)
+            kws = {k.arg: k.value for k in e.keywords}
+            if None in kws or any(isinstance(a, ast.Starred) for a in e.args):
+                raise Untranslatable(f"step2: `{ast.unparse(e)[:60]}`")
+            if isinstance(e.func, ast.Name) and e.func.id in self.env and self.env[e.func.id][1] == "interp":
+                if len(e.args) != 1 or kws:
+                    raise Untranslatable("step2: call of the interpolant")
+                at, k = self.ev(e.args[0])
+                if k not in ("idx", "arr"):
+                    raise Untranslatable("step2: interpolant evaluated at " + k)
+                xs, ys = self.env[e.func.id][0]
+                return f"(.interp {xs} {ys} {at})", "arr"
+            if f == self.MASK_HELPER and len(e.args) == 1 and not kws:
+                a, k = self.ev(e.args[0])
+                if (a, k) != (".x", "farr"):
+                    raise Untranslatable("step2: the mask helper is not applied to x")
+                return ".maskImpute", "mask"
+            if f == "np.logical_not" and len(e.args) == 1 and not kws:
+                m, k = self.ev(e.args[0])
+                if k != "mask":
+                    raise Untranslatable("step2: logical_not of " + k)
+                return f"(.not {m})", "mask"
+            if f == "np.argsort" and len(e.args) == 1 and not kws:
+                inner = e.args[0]
+                if isinstance(inner, ast.Call) and ast.unparse(inner.func) == "np.argsort" and len(inner.args) == 1 and not inner.keywords:
+                    a, k = self.ev(inner.args[0])
+                    if k != "arr":
+                        raise Untranslatable("step2: argsort(argsort(.)) of " + k)
+                    return f"(.rank {a})", "idx"
+                raise Untranslatable("step2: a single np.argsort")
+            if f == "np.sort" and len(e.args) == 1 and not kws:
+                a, k = self.ev(e.args[0])
+                if k != "arr":
+                    raise Untranslatable("step2: np.sort of " + k)
+                return f"(.sort {a})", "arr"
+            if f == "iecdf":
+                names = ["x", "p", "method"]
+                got = dict(zip(names, e.args))
+                for k_, v_ in kws.items():
+                    if k_ in got or k_ not in names:
+                        raise Untranslatable("step2: iecdf arguments")
+                    got[k_] = v_
+                if set(got) != set(names):
+                    raise Untranslatable("step2: iecdf arguments")
+                a, ka = self.ev(got["x"])
+                p_, kp = self.ev(got["p"])
+                if ka != "arr" or kp != "arr":
+                    raise Untranslatable("step2: iecdf of " + ka + ", " + kp)
+                return f'(.iecdf {a} {p_} "{ast.unparse(got["method"])}")', "arr"
+            if f == "np.random.random" and not e.args and set(kws) == {"size"}:
+                n, k = self.ev(kws["size"])
+                if k != "nat":
+                    raise Untranslatable("step2: np.random.random(size=" + k + ")")
+                return f"(.random {n})", "arr"
+            if isinstance(e.func, ast.Attribute) and e.func.attr == "sum" and not e.args and not kws:
+                m, k = self.ev(e.func.value)
+                if k != "mask":
+                    raise Untranslatable("step2: .sum() of " + k)
+                return f"(.count {m})", "nat"
+            if f == "scipy.interpolate.interp1d" and len(e.args) == 2 and set(kws) == {"fill_value"} \
+                    and isinstance(kws["fill_value"], ast.Constant) and kws["fill_value"].value == "extrapolate":
+                xs, kx = self.ev(e.args[0])
+                ys, ky = self.ev(e.args[1])
+                if kx not in ("idx", "arr") or ky not in ("idx", "arr"):
+                    raise Untranslatable("step2: interp1d knots")
+                return (xs, ys), "interp"
+        raise Untranslatable(f"step2: expression `{ast.unparse(e)[:70]}`")
+
+    def size_test(self, t, n):
+        """`<arr>.size == n` -> term of the array"""
+        if (isinstance(t, ast.Compare) and len(t.ops) == 1 and isinstance(t.ops[0], ast.Eq) and isinstance(t.left, ast.Attribute)
+                and t.left.attr == "size" and isinstance(t.comparators[0], ast.Constant) and t.comparators[0].value == n
+                and type(t.comparators[0].value) is int):
+            a, k = self.ev(t.left.value)
+            if k == "arr":
+                return a
+        return None
+
+    def masked_assign(self, st):
+        """`x[m] = v` -> (mask term, value term, kind of the value)"""
+        if not (isinstance(st, ast.Assign) and len(st.targets) == 1 and isinstance(st.targets[0], ast.Subscript)):
+            return None
+        tg = st.targets[0]
+        a, k = self.ev(tg.value)
+        m, km = self.ev(tg.slice)
+        if (a, k) != (".x", "farr") or km != "mask":
+            raise Untranslatable(f"step2: assignment target `{ast.unparse(tg)[:50]}`")
+        v, kv = self.ev(st.value)
+        return m, v, kv
+
+    def returns_x(self, st):
+        return isinstance(st, ast.Return) and st.value is not None and self.ev(st.value) == (".x", "farr")
+
+    def run(self):
+        body = [s for s in self.node.body if not _is_doc(s)]
+        k = 0
+        while k < len(body):
+            st = body[k]
+            k += 1
+            if self.fill is not None:
+                if self.returns_x(st) and k == len(body):
+                    return self
+                raise Untranslatable("step2: the final assignment is not followed by `return x`")
+            if isinstance(st, ast.Assign) and len(st.targets) == 1 and isinstance(st.targets[0], ast.Name):
+                if st.targets[0].id == "x":
+                    raise Untranslatable("step2: x is rebound")
+                self.env[st.targets[0].id] = self.ev(st.value)
+            elif isinstance(st, ast.If) and not st.orelse:
+                if self.empty_raises is None:
+                    a = self.size_test(st.test, 0)
+                    if a is None or len(st.body) != 1 or not isinstance(st.body[0], ast.Raise) or st.body[0].exc is None:
+                        raise Untranslatable(f"step2: expected `if <valid>.size == 0: raise …`, found `{ast.unparse(st.test)[:60]}`")
+                    exc = st.body[0].exc
+                    self.valid = a
+                    self.empty_raises = ast.unparse(exc.func) if isinstance(exc, ast.Call) else ast.unparse(exc)
+                elif self.single is None:
+                    a = self.size_test(st.test, 1)
+                    if a is None or a != self.valid or len(st.body) != 2 or not self.returns_x(st.body[1]):
+                        raise Untranslatable(f"step2: expected `if <valid>.size == 1: x[m] = v; return x`, found `{ast.unparse(st.test)[:60]}`")
+                    got = self.masked_assign(st.body[0])
+                    if got is None or got[2] != "num":
+                        raise Untranslatable("step2: the single-value branch does not assign a scalar through a mask")
+                    self.single = got[:2]
+                else:
+                    raise Untranslatable(f"step2: unexpected `if {ast.unparse(st.test)[:60]}`")
+            else:
+                got = self.masked_assign(st)
+                if got is None or got[2] != "arr" or self.single is None:
+                    raise Untranslatable(f"step2: unexpected statement `{ast.unparse(st)[:70]}`")
+                self.fill = got[:2]
+        raise Untranslatable("step2: no final masked assignment followed by `return x`")
+
+    def lean(self):
+        return "\n".join([
+            f"/-- generated from `{ISI}`: `ISIMIP._step2_impute_values` (symbolic reading: every local replaced by what it was computed from) -/",
+            "def impute_values : Step2Spec where",
+            f"  valid := {self.valid}",
+            f'  emptyRaises := "{self.empty_raises}"',
+            f"  singleMask := {self.single[0]}",
+            f"  singleValue := {self.single[1]}",
+            f"  fillMask := {self.fill[0]}",
+            f"  fillValue := {self.fill[1]}"])
+
+
+def generate_step2(repo):
+    tree = ast.parse(open(os.path.join(repo, ISI)).read())
+    out = ["", "import IbicusModel.Model.IsimipStep2", "", "namespace Gen.IsimipStep2", "open Model.IsimipStep2", ""]
+    errors = []
+    try:
+        out += [Step2Reader(find_function(tree, "ISIMIP", "_step2_impute_values")).run().lean(), ""]
+    except Untranslatable as ex:
+        errors.append("untranslatable:_step2_impute_values: " + " ".join(str(ex).split()))
+    out.append("end Gen.IsimipStep2\n")
     return "\n".join(out), errors
 
 
